@@ -197,7 +197,7 @@ CHECKS['C01'] = dict(
 GARBAGE_LD = ['-Wl,--wrap=posix_memalign', '-Wl,--wrap=free']
 CHECKS['C03'] = dict(
     level='exploration',
-    rule='generated API histories (3-line productive prologue, in a third of the histories continued by the rebinding scenario hash / release the bound cache / allocate+initialise a new cache object with the same key at the same address / bind / hash on a VM of a generated class, + 0..100 generated commands over AllocCache/InitCache/ReleaseCache/AllocDataset/InitDataset(16 threads)/ReleaseDataset/CreateVm/DestroyVm/'
+    rule='generated API histories (3-line productive prologue, in a third of the histories continued by the rebinding scenario hash / release the bound cache / allocate+initialise a new cache object with the same key at the same address / bind / hash on a VM of a generated class, in the dataset histories also by dataset allocation/initialisation, a fast-mode VM of a generated class and hash / version switch / hash / switch back / hash, + 0..100 generated commands over AllocCache/InitCache/ReleaseCache/AllocDataset/InitDataset(16 threads)/ReleaseDataset/CreateVm/DestroyVm/'
          'SetCache/SetDataset/SetV2/ClearV2/Hash/BatchFirst/Next/Last/Churn; operands are indices resolved modulo the live objects; a command whose documented precondition does not hold is skipped and counted) '
          'over 5 keys (a generated key, the empty key, one > 60 bytes, and two relatives of the first: same length differing only in the last byte behind an embedded zero byte, and a zero-extended / prefix version), 6 generated inputs, all light VM classes (+ fast VMs in the dataset histories), both versions, under an interposed allocator that pre-fills every '
          'library block with a generated pattern, poisons and quarantines freed blocks and hands big blocks (scratchpad, cache, dataset) out again at the same address. Oracle: every digest == digest of a fresh cache + fresh VM; '
@@ -207,7 +207,7 @@ CHECKS['C03'] = dict(
                                  'any conforming allocator may return a freed address again and leaves fresh memory indeterminate'],
     stages=[
         dict(name='history', harness=H('c03', ['harness/c03_history.cpp'], ldflags=GARBAGE_LD),
-             plan={'quick': 'history=48:60,history_ds=2:30', 'thorough': 'history=1280:100,history_ds=32:40'}, env={'VERIF_CASE_TIMEOUT': '600'}),
+             plan={'quick': 'history=48:60,history_ds=4:30', 'thorough': 'history=1280:100,history_ds=32:40'}, env={'VERIF_CASE_TIMEOUT': '600'}),
     ],
 )
 
@@ -220,7 +220,7 @@ CHECKS['C16'] = dict(
     assumptions=COMMON_ASSUME + ['the interposed mmap/mprotect log sees every request of the statically linked library; the executable stack caused by the missing .note.GNU-stack in jit_compiler_x86_static.S is not a library-owned code buffer and is ignored'],
     stages=[
         dict(name='secure', harness=H('c16', ['harness/c03_history.cpp'], cflags=['-DWITH_PROT_ORACLE'], ldflags=GARBAGE_LD + ['-Wl,--wrap=mmap', '-Wl,--wrap=munmap', '-Wl,--wrap=mprotect']),
-             plan={'quick': 'secure=48:60,secure_ds=2:30', 'thorough': 'secure=1280:100,secure_ds=32:40'}, env={'VERIF_CASE_TIMEOUT': '600'}),
+             plan={'quick': 'secure=48:60,secure_ds=4:30', 'thorough': 'secure=1280:100,secure_ds=32:40'}, env={'VERIF_CASE_TIMEOUT': '600'}),
     ],
 )
 
